@@ -961,6 +961,21 @@ func rulePostPassPositions(c *Ctx, t *tables) {
 			}
 			break
 		}
+		// a one-line predicate of the writer (`func (cw) atStart() bool { return cw.Builder.Len() == 0 }`) is read through
+		if call, ok := cond.(*ssa.Call); ok && !call.Call.IsInvoke() {
+			if cal := call.Call.StaticCallee(); cal != nil && cal.Blocks != nil && len(cal.Blocks) == 1 && len(call.Call.Args) == 1 && cal.Signature.Recv() != nil {
+				if ret, ok := cal.Blocks[0].Instrs[len(cal.Blocks[0].Instrs)-1].(*ssa.Return); ok && len(ret.Results) == 1 {
+					cond = ret.Results[0]
+					for {
+						if u, ok := cond.(*ssa.UnOp); ok && u.Op == token.NOT {
+							cond, neg = u.X, !neg
+							continue
+						}
+						break
+					}
+				}
+			}
+		}
 		bo, ok := cond.(*ssa.BinOp)
 		if !ok || !bufLen(bo.X) {
 			return -1
